@@ -186,7 +186,9 @@ def inv_signed(cnt):
     return ' || '.join(ds)
 
 
-def populate(ctx, sk):
+def populate(ctx, sk, findings=False):
+    """findings=True (only this batch's own build): also state the clause that FAILS on the pinned tree because of the
+    genuine defect F-wcore-1 (see header); downstream batches call populate(ctx, sk) and are not disturbed by it."""
     lb = Source('leb128.rs', ctx)
     wmod = wsource('write/mod.rs', ctx)
     wrs = Source('write/writer.rs', ctx)
@@ -260,7 +262,7 @@ use crate::wspec::*;''')
     wr.required(PRIMS)
     wr.required(RELOCATABLE)
     wr.clean()
-    writer_contracts(wr, plain=False)
+    writer_contracts(wr, plain=False, findings=findings)
     sk.add('write::writer', wr)
     ilo = wrs.item(r'^pub struct InitialLengthOffset', label='InitialLengthOffset').clean()
     sk.add('write::writer', ilo)
@@ -289,7 +291,7 @@ CAST_S = ('proof { assert((val as i8) as i64 == val <==> (-0x80i64 <= val && val
           'assert(val < 0 ==> (val as u64) as int == val as int + 0x1_0000_0000_0000_0000) by (bit_vector); }')
 
 
-def writer_contracts(wr, plain):
+def writer_contracts(wr, plain, findings=False):
     """contracts of `trait Writer`. plain=False: the five relocatable methods are required and carry EVENT contracts
     (wcore); plain=True: they keep their default bodies and carry the plain-writer contracts (wreloc)."""
     wr.insert_after('type Endian: Endianity;', GHOST)
@@ -333,18 +335,20 @@ def writer_contracts(wr, plain):
         '[C09:eh-data-too-large] eh_data_op(val, format, size) is Some && !eh_data_fits(val, format, size) ==> res is Err',
         ERR_UNCH])
     if not plain:
-      wr.splice('write_initial_length', ret='res', ensures=[
-        f'[C09:initial-length] res matches Ok(o) ==> (match format {{ '
-        f'Format::Dwarf32 => emitted({O}, {F}, wu(0, 4)) && o.off() == {O}.len, '
-        f'Format::Dwarf64 => emitted2({O}, {F}, wu(0xffff_ffff, 4), wu(0, 8)) && o.off() == {O}.len + 4 }})',
-        f'[C09:initial-length-size] res is Ok ==> {F}.len == {O}.len + (match format {{ Format::Dwarf32 => 4nat, Format::Dwarf64 => 12nat }})',
-        FRAME])
-      wr.splice('write_initial_length_at', ret='res', ensures=[
-        f'[C09:initial-length-at] res is Ok ==> ufits(length as nat, word_size(format)) && offset.off() + word_size(format) <= {O}.len && '
-        f'emitted({O}, {F}, WOp::PatchU {{ offset: offset.off() as nat, val: length as nat, size: word_size(format) }})',
-        '[C09:initial-length-at-too-large] !ufits(length as nat, word_size(format)) ==> res == Err::<(), Error>(Error::ValueTooLarge)',
-        ERR_UNCH])
-    if not plain:
+        wr.splice('write_initial_length', ret='res', ensures=[
+            f'[C09:initial-length] res matches Ok(o) ==> (match format {{ '
+            f'Format::Dwarf32 => emitted({O}, {F}, wu(0, 4)) && o.off() == {O}.len, '
+            f'Format::Dwarf64 => emitted2({O}, {F}, wu(0xffff_ffff, 4), wu(0, 8)) && o.off() == {O}.len + 4 }})',
+            f'[C09:initial-length-size] res is Ok ==> {F}.len == {O}.len + (match format {{ Format::Dwarf32 => 4nat, Format::Dwarf64 => 12nat }})',
+            FRAME])
+        wr.splice('write_initial_length_at', ret='res', ensures=[
+            f'[C09:initial-length-at] res is Ok ==> ufits(length as nat, word_size(format)) && offset.off() + word_size(format) <= {O}.len && '
+            f'emitted({O}, {F}, WOp::PatchU {{ offset: offset.off() as nat, val: length as nat, size: word_size(format) }})',
+            '[C09:initial-length-at-too-large] !ufits(length as nat, word_size(format)) ==> res == Err::<(), Error>(Error::ValueTooLarge)',
+            ERR_UNCH] + ([
+            # DWARF 5 section 7.4: a 32-bit initial length is < 0xffff_fff0 (0xffff_fff0..0xffff_fffe reserved, 0xffff_ffff = 64-bit
+            # escape); such a length does not read back (read_initial_length, core [C09:initial-length-reserved]).  FAILS: F-wcore-1
+            '[C09:initial-length-at-reserved] format is Dwarf32 && length >= 0xffff_fff0 ==> res is Err'] if findings else []))
         # EVENT contracts of the relocatable primitives (C18): what generic writers are proved against
         wr.splice('write_address', ret='res', ensures=[
             f'[C18:w-address] res is Ok ==> emitted({O}, {F}, WOp::Address {{ address, size }})', ERR_UNCH])
@@ -361,5 +365,5 @@ def writer_contracts(wr, plain):
 def build(ctx):
     sk = Skeleton(ctx, core.rd('prelude/crate.rs'))
     core.populate(ctx, sk)
-    populate(ctx, sk)
+    populate(ctx, sk, findings=True)
     return sk
